@@ -165,6 +165,15 @@ def run_l1_slow(ctx):
                         cut = len(data) // 2
                         sim.feed(data[:cut])
                         sim.feed(data[cut:])
+                        # stray bytes after the complete request (while it is being answered) must not
+                        # bring the request timer back
+                        if k % 3 == 0:
+                            sim.advance(min(hd, 5.0) / 2)
+                            sim.feed(b"x")
+                        elif k % 3 == 1:
+                            for _ in range(3):
+                                sim.advance(min(hd, 9.0) / 4)
+                                sim.feed(b"\r\nlate bytes")
                         sim.finish(HORIZON)
                         t = sim.transport
                         stream = bytes(t.written)
